@@ -111,29 +111,34 @@ def timers(ctx):
         n = Op("+", (c.kwargs["reset"], Const(1)))
         reload = [d for d in s.drivers(c) if key(start) in s.guard_keys(d, False)]
         ob2.instance("sequencer executions per request", {"count.reset + 1": key(n), "reload": [str(d) for d in reload]})
-        if not lin_eq(n, Sym("postponing")):
-            ob2.refute("sequencer-count", "the sequencer runs %s refresh sequences per request, expected `postponing` (the postponer only asks "
-                       "once per `postponing` intervals)" % key(n), c.loc)
-        if not reload or any(key(d.value) != key(c.kwargs["reset"]) for d in reload):
-            ob2.refute("sequencer-reload", "on start the sequencer's counter is loaded with %s, not postponing-1" % [key(d.value) for d in reload], c.loc)
-        ex = s.instances_of("RefreshExecuter")
-        if ex:
-            st = prim_keys(s, [(ex[0].attrs["start"], True)]) if False else None
-            dv = s.single_comb_def(ex[0].attrs["start"])
-            dk = litset(disj(dv)) if dv is not None else set()
-            ob2.instance("executer.start", sorted(dk))
-            if dk != {key(start), key(c)}:
-                # another shape: some trigger input of the executer must still depend on the remaining-count register, otherwise only ONE sequence runs per request
-                trig = [l_ for l_ in s.leaves if l_.kind == "assign" and l_.inst == "" and key(l_.target).startswith(str(ex[0]) + ".") and isinstance(l_.value, V)]
-                if any(key(c) in support(expand_term(s, l_.value)) for l_ in trig):
-                    ob2.unknown("the executer is re-triggered by %s: not the `start | (count != 0)` form this rule understands" % [str(l_)[:80] for l_ in trig])
-                else:
-                    ob2.refute("sequencer-restart", "executer.start is %s and no trigger of the executer depends on the remaining-sequence counter %s: only one refresh sequence "
-                               "runs per request although the postponer asks once per `postponing` intervals" % (sorted(dk), key(c)), ex[0].loc)
-            dd = s.single_comb_def(s.top.attrs["done"])
-            dk2 = litset(conj(dd)) if dd is not None else set()
-            if dk2 != {key(ex[0].attrs["done"]), "~" + key(c)}:
-                ob2.refute("sequencer-done", "sequencer.done is %s, expected executer.done & (count == 0)" % sorted(dk2), ex[0].loc)
+        exotic_ = not lin_eq(n, Sym("postponing")) and any(any(x_ in k_ for x_ in ("**", "<<")) and "postponing" in k_ for k_ in [key(n)] + [key(d.value) for d in reload])
+        if exotic_:
+            ob2.unknown("the sequencer keeps its remaining-sequence count in another encoding than a binary down counter (reset value %s, e.g. a string of ones shifted out): the "
+                        "number of sequences per request is not decided" % key(c.kwargs["reset"]))
+        if not exotic_:
+            if not lin_eq(n, Sym("postponing")):
+                ob2.refute("sequencer-count", "the sequencer runs %s refresh sequences per request, expected `postponing` (the postponer only asks "
+                           "once per `postponing` intervals)" % key(n), c.loc)
+            if not reload or any(key(d.value) != key(c.kwargs["reset"]) for d in reload):
+                ob2.refute("sequencer-reload", "on start the sequencer's counter is loaded with %s, not postponing-1" % [key(d.value) for d in reload], c.loc)
+            ex = s.instances_of("RefreshExecuter")
+            if ex:
+                st = prim_keys(s, [(ex[0].attrs["start"], True)]) if False else None
+                dv = s.single_comb_def(ex[0].attrs["start"])
+                dk = litset(disj(dv)) if dv is not None else set()
+                ob2.instance("executer.start", sorted(dk))
+                if dk != {key(start), key(c)}:
+                    # another shape: some trigger input of the executer must still depend on the remaining-count register, otherwise only ONE sequence runs per request
+                    trig = [l_ for l_ in s.leaves if l_.kind == "assign" and l_.inst == "" and key(l_.target).startswith(str(ex[0]) + ".") and isinstance(l_.value, V)]
+                    if any(key(c) in support(expand_term(s, l_.value)) for l_ in trig):
+                        ob2.unknown("the executer is re-triggered by %s: not the `start | (count != 0)` form this rule understands" % [str(l_)[:80] for l_ in trig])
+                    else:
+                        ob2.refute("sequencer-restart", "executer.start is %s and no trigger of the executer depends on the remaining-sequence counter %s: only one refresh sequence "
+                                   "runs per request although the postponer asks once per `postponing` intervals" % (sorted(dk), key(c)), ex[0].loc)
+                dd = s.single_comb_def(s.top.attrs["done"])
+                dk2 = litset(conj(dd)) if dd is not None else set()
+                if dk2 != {key(ex[0].attrs["done"]), "~" + key(c)}:
+                    ob2.refute("sequencer-done", "sequencer.done is %s, expected executer.done & (count == 0)" % sorted(dk2), ex[0].loc)
     p = elab(ctx, REFR, "RefreshPostponer", kwargs={"postponing": Sym("postponing")})
     pc = []
     for l in p.leaves:
@@ -247,7 +252,9 @@ def priority(ctx):
         for s in (M.read_state, M.write_state):
             nx = [l for l in v.fsm_leaves(M.fsm, s) if l.kind == "next"]
             last = nx[-1] if nx else None
-            okk = last is not None and isinstance(last.value, Const) and last.value.v in M.refresh_states and v.guard_keys(last) - {"go_to_refresh"} == gnts
+            # the refresher's own request next to the grants is not port traffic (the grants already imply it)
+            okk = last is not None and isinstance(last.value, Const) and last.value.v in M.refresh_states and \
+                (v.guard_keys(last) - {"go_to_refresh", "refresher.cmd.valid"}) == gnts
             ob.instance("nphases=%d: state %s NextState order" % (nph, s), [str(l) for l in nx])
             if not okk:
                 ob.refute("mux-refresh-priority:%s:%d" % (s, nph), "in state %s the transition to the refresh state is not the last (winning) "
